@@ -78,6 +78,18 @@ func worldAuthz(w *World) {
 		scfg["transport"].(map[string]any)["tls"] = map[string]any{"certFile": w.In.CertDir + "/server.crt", "keyFile": w.In.CertDir + "/server.key"}
 	}
 	opts := PeerOpts{Server: "10.0.0.1:7000", Mux: tcpMux, Token: token, TLS: useTLS, TLSConfig: &tls.Config{InsecureSkipVerify: true}}
+	// the listener every scripted peer of this run enters through: the bind port as it is (tcp or tls), the
+	// websocket path of the bind port, or the QUIC listener
+	switch w.KnobPick("entry", 0, 0, 1, 2) {
+	case 1:
+		opts.WS = true
+		opts.CustomByte = false
+		w.Probe("authz.entry_websocket")
+	case 2:
+		scfg["quicBindPort"] = 7001
+		opts.QUIC, opts.Server, opts.TLS, opts.Mux = true, "10.0.0.1:7001", false, false
+		w.Probe("authz.entry_quic")
+	}
 	env := w.newLcEnv(scfg, token, opts)
 	env.start()
 	r := w.R
